@@ -3,6 +3,7 @@ package main
 import (
 	"go/ast"
 	"go/types"
+	"strings"
 
 	"golang.org/x/tools/go/cfg"
 )
@@ -186,6 +187,18 @@ func c11R4(c *Ctx, r *Report) {
 		fn := c.LookupFn(pkgMIRGen, "(*functionBuilder)."+s.fn)
 		if !r.Anchor(rule, fn != nil, "mir/gen.(*functionBuilder)."+s.fn) {
 			continue
+		}
+		// the site may delegate its body to one helper of the same receiver (lowerDeclItem ->
+		// lowerDeclItemValue): the obligation is checked where the sink is
+		if nodeCallsPred(fn.Decl.Body, func(cl *ast.CallExpr) bool { return s.sink(fn.Info(), cl) }) == nil {
+			for _, cl := range callsIn(fn.Decl.Body, false) {
+				if g := callee(fn.Info(), cl); g != nil && strings.HasPrefix(g.Name(), s.fn) && g != fn.Obj {
+					if gf := c.FnOf(g); gf != nil && gf.Decl != nil && gf.Decl.Body != nil {
+						fn = gf
+						break
+					}
+				}
+			}
 		}
 		info := fn.Info()
 		nSinks := 0
